@@ -13,7 +13,7 @@ RATE_TABLE = [
     (tr.t_const, "p"), (tr.t_ma1, "pa"), (tr.t_ma2, "pav"), (tr.t_mm, "vpp"), (tr.t_rev, "vvpp"), (tr.t_inh, "vap"),
     (tr.t_hill, "vpn"), (tr.t_cond, "vp"), (tr.t_chain, "vp"), (tr.t_elif, "vp"), (tr.t_nested, "vp"), (tr.t_local, "vp"), (tr.t_time, "pt"), (tr.t_cap, "vp"),
     (tr.t_nestif, "vap"), (tr.t_guarded, "vap"), (tr.t_share, "vap"), (tr.t_eqgate, "vap"), (tr.t_window, "vpp"),
-    (tr.t_postcall, "vap"), (tr.t_swap, "vap"),
+    (tr.t_postcall, "vap"), (tr.t_swap, "vap"), (tr.t_localimp, "pa"),
 ]
 
 
